@@ -223,7 +223,10 @@ def write_evidence(pid, tier, seed, coverage, assumptions, wall, violations, lev
     ensure_dirs()
     ev = {'property_id': pid, 'tier': tier, 'seed': int(seed), 'level': level, 'coverage': coverage,
           'assumptions': assumptions, 'wall_s': round(wall, 2), 'violations': int(violations)}
-    p = os.path.join(ROOT, 'evidence', pid + '.json')
+    # runs against a scratch copy of the repository (self-test, seeded changes) must not overwrite the real evidence
+    edir = os.path.join(ROOT, 'evidence') if os.path.realpath(REPO) == '/repo' else os.path.join(BUILD, 'evidence_scratch')
+    os.makedirs(edir, exist_ok=True)
+    p = os.path.join(edir, pid + '.json')
     with open(p + '.tmp', 'w') as f:
         json.dump(ev, f, indent=1)
     os.replace(p + '.tmp', p)
